@@ -838,8 +838,10 @@ Plan gen_C11(Gen &g, Plan p)
         p.producers.push_back(gen_msgs(n, fatal_thread == i + 1 || fatal_thread2 == i + 1));
     }
     auto mainmsgs = gen_msgs(nmain, fatal_thread == 0 || fatal_thread2 == 0);
-    // a fifth of the plans: the logger was asynchronous for a while and is synchronous again
-    if (g.r.chance(1, 5)) {
+    // a fifth of the plans: the logger was asynchronous for a while and is synchronous again. (Not with
+    // the one-line configuration: its pretty format tags threads by their id, and whether a later thread
+    // gets the id of the logger thread that is gone depends on the allocator - not on the seed.)
+    if (g.r.chance(1, 5) && mode.rfind("oneline", 0) != 0) {
         p.main_ops.push_back(mkop("move"));
         if (g.r.chance(1, 2))
             p.main_ops.push_back(gen_log(g, false));
